@@ -156,6 +156,9 @@ func cmdFn(args []string) {
 			fmt.Printf("OUT-OF-SUBSET %s: %v\n", FuncKey(f), err)
 			continue
 		}
+		for _, u := range v.unboundClauses {
+			fmt.Printf("UNBOUND-CLAUSE %s#%s\n", FuncKey(f), u)
+		}
 		all = append(all, v.obls...)
 	}
 	if *only != "" {
